@@ -1367,7 +1367,7 @@ def strings_for(ast, env, rnd, big=False, nlong=24):
         return x[0] == 'rep' and (x[3] is None or x[3] >= 3)
     risky = any(big(x) and has_choice(x[1]) for x in walk(ast))
     nested = any(big(x) and any(big(y) for y in walk(x[1])) for x in walk(ast))      # repetition inside repetition
-    cap = 7 if nested else (8 if risky else 60)       # (12 for risky until `(.|.|.)+c+?` on 15 characters took minutes: 3^n paths)
+    cap = 6 if (nested or risky) else 60       # (12 for risky until `(.|.|.)+c+?` on 15 characters took minutes: 3^n paths; 8+2 still tripped the watchdog on a loaded machine)
     for i in range(nlong):
         m = i % 3
         s = sample_member(ast, env, rnd, maxrep=1 if nested else (2 if risky else 3))
@@ -1387,7 +1387,7 @@ def strings_for(ast, env, rnd, big=False, nlong=24):
         if not env.xsd and i % 4 == 0:
             # search semantics: embed in context
             emb = [rnd.choice(wide)] * rnd.randint(1, 3) + list(s) + [rnd.choice(wide)] * rnd.randint(0, 2)
-            add(emb if not (risky or nested) else emb[:cap + 2])
+            add(emb if not (risky or nested) else emb[:cap])
     return alpha, out
 
 
